@@ -615,7 +615,7 @@ func c17cStream(rng *rand.Rand, n int, tier string, out string) (*Summary, error
 
 	// ---- compiled packages
 	colonPkgs := 0
-	for _, name := range reg.Names() {
+	for _, name := range reg.AllNames() {
 		if r.filter != nil && r.filter.Pkg != name {
 			continue
 		}
